@@ -40,7 +40,6 @@ import (
 	"fmt"
 	"io"
 	"math/rand"
-	"sort"
 	"strconv"
 	"strings"
 	"sync"
@@ -909,26 +908,26 @@ func runGated(t *testing.T, r *vp.Run) {
 			handFile(t, "[[P4,P6],[P3,P8,P5]]", "noBS+noFS"),
 			handFile(t, "[P10,[P5,[P3,P4]],P8]", "noBS"),
 			handFile(t, "[P10,[P5,[P3,P4]],P8]", "BS"),
-			builderFile(t, "size-4", 163),
+			builderFile(t, "size-4", 83),
 			builderFile(t, "size-8", 50),
-			dirSubject(t, 8, 150, 12),
-			dirSubject(t, 16, 400, 16),
+			dirSubject(t, 8, 100, 12),
+			dirSubject(t, 16, 200, 16),
 		)
 	}
 	var names []string
 	for _, s := range subjects {
 		e.stats.Subjects++
-		names = append(names, s.name)
+		t0, n0 := time.Now(), e.stats.Schedules
 		e.alone(s)
 		e.pairs(s)
 		if vp.Thorough() {
 			e.triples(s)
 		}
+		names = append(names, fmt.Sprintf("%s (%d schedules, %.1fs)", s.name, e.stats.Schedules-n0, time.Since(t0).Seconds()))
 		if e.aborted {
 			break
 		}
 	}
-	sort.Strings(names)
 	r.Sample(map[string]any{"gated": e.stats, "seconds": time.Since(began).Seconds()})
-	t.Logf("gated schedules: %+v in %.1fs; subjects %s", e.stats, time.Since(began).Seconds(), strings.Join(names, " "))
+	t.Logf("gated schedules: %+v in %.1fs; subjects: %s", e.stats, time.Since(began).Seconds(), strings.Join(names, "; "))
 }
